@@ -131,6 +131,8 @@ type baseline struct {
 	e           int
 	transitions []int
 	files       []string // LDS files (EF.COM, EF.SOD, data groups) the fault-free read returns
+	clear       []string // files of the master file read in the clear (EF.CardAccess, EF.DIR) the fault-free read returns
+	aa, ca      bool     // the fault-free read attempted Active / Chip Authentication (a result or an error is recorded)
 }
 
 var baselineCache = map[int]baseline{}
@@ -147,8 +149,15 @@ func baselineFor(cfg int, spec world.WorldSpec) baseline {
 			if name == "com" || name == "sod" || strings.HasPrefix(name, "dg") {
 				b.files = append(b.files, name)
 			}
+			if name == "cardAccess" || name == "dir" {
+				b.clear = append(b.clear, name)
+			}
 		}
 		sort.Strings(b.files)
+		sort.Strings(b.clear)
+		ss := r.Doc.Session
+		b.aa = ss.ActiveAuthResult != nil || ss.ActiveAuthErr != nil
+		b.ca = ss.ChipAuthResult != nil || ss.ChipAuthErr != nil
 	}
 	for _, ex := range r.Chip.Log {
 		a := ex.Action
@@ -330,6 +339,38 @@ func (E2EFaultEngine) Run(prop string, ci any) *core.Outcome {
 				if _, ok := got[name]; !ok {
 					out.Violate("C11", "file-silently-missing", name, "the read completed without an error and without a step recorded as failed, but %s (stored on the chip, returned by the fault-free read) is missing under faults %v", name, c.Faults)
 				}
+			}
+			// files read in the clear: a forged "not found" status is beyond any terminal, but an empty, truncated, garbled,
+			// oversized or lost response is not a "not found" and must not make the file vanish silently
+			forgedStatus := false
+			for _, kind := range r.Link.FaultAt {
+				switch kind {
+				case "resp_truncate", "resp_garble", "resp_oversize", "resp_lost", "cmd_lost", "do_drop", "do_dup", "do_reorder", "do_nonminimal_len":
+				case "resp_status":
+					for _, f := range c.Faults {
+						if f.Kind == "resp_status" && f.A != 0x9000 {
+							forgedStatus = true
+						}
+					}
+				default:
+					forgedStatus = true // replay / swap of an earlier status, power cycle, ...
+				}
+			}
+			if !forgedStatus {
+				for _, name := range b.clear {
+					if _, ok := got[name]; !ok {
+						out.Violate("C11", "clear-file-silently-missing", name, "the read completed without an error and without a step recorded as failed, but %s is missing although no response carried a not-found status (faults %v)", name, c.Faults)
+					}
+				}
+			}
+			// authentication steps run under secure messaging: once the fault-free read attempts one, a completed read
+			// without recorded failure must show its result (Chip Authentication may legitimately be left out when
+			// Active Authentication or PACE-CAM already succeeded)
+			if b.aa && s.ActiveAuthResult == nil {
+				out.Violate("C11", "step-silently-skipped", "AA", "the read completed without an error, Active Authentication has neither a result nor an error recorded (faults %v)", c.Faults)
+			}
+			if b.ca && s.ChipAuthResult == nil && !(s.ActiveAuthResult != nil && s.ActiveAuthResult.Success) && !(s.PaceCamResult != nil && s.PaceCamResult.Success) {
+				out.Violate("C11", "step-silently-skipped", "CA", "the read completed without an error, Chip Authentication has neither a result nor an error recorded (faults %v)", c.Faults)
 			}
 		}
 		// (3) reported successes are ones the chip completed
